@@ -30,6 +30,9 @@ CONSTANTS MaxStmts,    \* statements (simple + if) in the whole program
           MaxSubs,     \* subroutines
           MaxDir,      \* directives
           RuleLists,   \* rule lists a directive may carry; {} = no list = every rule
+          Switch,      \* TRUE: switch statements (one case holding statements) are generated too
+          Odd,         \* TRUE: also the placements where a form covers nothing (falco-ignore on its own line, any
+                       \* directive between `}` and `else` or at the end of the file); FALSE: leave them out
           Sample       \* 0: enumerate everything; n > 0: n random programs x n random directive sequences
 
 Rules     == {"r1", "r2", "r3"}
@@ -47,7 +50,7 @@ RECURSIVE StmtsOf(_, _), BlocksOf(_, _), ProgsOf(_, _)
 StmtsOf(n, d) ==
   (IF n = 1 THEN {S} ELSE {}) \cup
   (IF d = 0 THEN {} ELSE
-     { [k |-> "if", cons |-> c, alt |-> <<>>] : c \in BlocksOf(n - 1, d - 1) } \cup
+     { [k |-> kk, cons |-> c, alt |-> <<>>] : kk \in (IF Switch THEN {"if", "switch"} ELSE {"if"}), c \in BlocksOf(n - 1, d - 1) } \cup
      UNION { { [k |-> kk, cons |-> c, alt |-> a] : kk \in {"ifelse", "ifelif"}, c \in BlocksOf(i, d - 1), a \in BlocksOf(n - 1 - i, d - 1) }
              : i \in 0..(n - 1) })
 \* blocks holding exactly n statements in total
@@ -68,7 +71,7 @@ Programs == UNION { ProgsOf(n, s) : n \in 1..MaxStmts, s \in 1..MaxSubs }
 (*         lead(gap) stmt trail(gap)                                       *)
 (*         lead(gap) if_open ... block_end(gap) [else | elif ... block_end(gap)] if_close *)
 (***************************************************************************)
-RECURSIVE FlatStmts(_, _, _), FlatProgFrom(_, _)
+RECURSIVE FlatStmts(_, _, _), FlatProgFrom(_, _, _)
 FlatBlock(b, bid) == FlatStmts(b, bid, 1) \o << <<"block_end", bid>> >>
 FlatStmts(b, bid, j) ==
   IF j > Len(b) THEN <<>>
@@ -77,21 +80,30 @@ FlatStmts(b, bid, j) ==
        IN (CASE st.k = "s"  -> << <<"lead", id>>, <<"stmt", id>>, <<"trail", id>> >>
              [] st.k = "if" -> << <<"lead", id>>, <<"if_open", id>> >> \o FlatBlock(st.cons, Append(id, 1))
                                \o << <<"if_close", id>> >>
+             \* switch (..) { case "a": statements break; }: the statements of a case are not a block
+             [] st.k = "switch" -> << <<"lead", id>>, <<"sw_open", id>> >> \o FlatStmts(st.cons, Append(id, 1), 1)
+                               \o << <<"sw_close", id>> >>
              [] OTHER       -> << <<"lead", id>>, <<"if_open", id>> >> \o FlatBlock(st.cons, Append(id, 1))
-                               \o << <<(IF st.k = "ifelse" THEN "else" ELSE "elif"), id>> >> \o FlatBlock(st.alt, Append(id, 2))
+                               \o << <<"prelse", id>>, <<(IF st.k = "ifelse" THEN "else" ELSE "elif"), id>> >>
+                               \o FlatBlock(st.alt, Append(id, 2))
                                \o << <<"if_close", id>> >>)
           \o FlatStmts(b, bid, j + 1)
-FlatProgFrom(p, i) ==
-  IF i > Len(p) THEN <<>>
-  ELSE << <<"sublead", <<i>>>>, <<"sub_open", <<i>>>> >> \o FlatBlock(p[i], <<i>>) \o << <<"sub_close", <<i>>>> >>
-       \o FlatProgFrom(p, i + 1)
-FlatProg(p) == FlatProgFrom(p, 1)
+\* skip = index of a subroutine that the configuration excludes from linting (linter.ignore_subroutines; the CLI
+\* always excludes vcl_pipe), 0 = none.  Its declaration is still a statement of the walk (its leading comments
+\* are read), its body is not linted: it has no sites and no gaps inside.
+FlatProgFrom(p, i, skip) ==
+  IF i > Len(p) THEN << <<"eof", <<>>>> >>
+  ELSE (IF i = skip
+        THEN << <<"sublead", <<i>>>>, <<"sub_skip", <<i>>>> >>
+        ELSE << <<"sublead", <<i>>>>, <<"sub_open", <<i>>>> >> \o FlatBlock(p[i], <<i>>) \o << <<"sub_close", <<i>>>> >>)
+       \o FlatProgFrom(p, i + 1, skip)
+FlatProg(p, skip) == FlatProgFrom(p, 1, skip)
 
 Kind(e, n) == e[n][1]
 Id(e, n)   == e[n][2]
 IsPrefix(a, b) == Len(a) <= Len(b) /\ SubSeq(b, 1, Len(a)) = a
 Sites(e)   == { n \in DOMAIN e : Kind(e, n) \in {"stmt", "if_open", "elif"} }
-OwnLine(e, n) == Kind(e, n) \in {"lead", "sublead", "block_end"}
+OwnLine(e, n) == Kind(e, n) \in {"lead", "sublead", "block_end", "prelse", "eof"}
 GapOf(e, kind, id) == CHOOSE g \in DOMAIN e : Kind(e, g) = kind /\ Id(e, g) = id
 
 (***************************************************************************)
@@ -102,15 +114,17 @@ GapOf(e, kind, id) == CHOOSE g \in DOMAIN e : Kind(e, g) = kind /\ Id(e, g) = id
 (* simple statement on its line (at most one per statement).               *)
 (***************************************************************************)
 LegalDirs(e) ==
-  { [at |-> g, type |-> t, rules |-> rl] : g \in { n \in DOMAIN e : OwnLine(e, n) }, t \in {"next", "start", "end"}, rl \in RuleLists }
+  { [at |-> g, type |-> t, rules |-> rl] :
+      g \in { n \in DOMAIN e : OwnLine(e, n) /\ (Odd \/ Kind(e, n) \notin {"prelse", "eof"}) },
+      t \in (IF Odd THEN Types ELSE Types \ {"this"}), rl \in RuleLists }
   \cup { [at |-> g, type |-> "this", rules |-> rl] : g \in { n \in DOMAIN e : Kind(e, n) = "trail" }, rl \in RuleLists }
-RECURSIVE DirSeqsFrom(_, _, _)
-DirSeqsFrom(L, lo, k) ==
+RECURSIVE DirSeqsFrom(_, _, _, _)
+DirSeqsFrom(e, L, lo, k) ==
   {<<>>} \cup
   (IF k = 0 THEN {} ELSE
-     UNION { { <<d>> \o rest : rest \in DirSeqsFrom(L, IF d.type = "this" THEN d.at + 1 ELSE d.at, k - 1) }
+     UNION { { <<d>> \o rest : rest \in DirSeqsFrom(e, L, IF Kind(e, d.at) = "trail" THEN d.at + 1 ELSE d.at, k - 1) }
              : d \in { x \in L : x.at >= lo } })
-DirSeqs(e) == DirSeqsFrom(LegalDirs(e), 1, MaxDir)
+DirSeqs(e) == DirSeqsFrom(e, LegalDirs(e), 1, MaxDir)
 
 (***************************************************************************)
 (* REQUIREMENT (docs/linter.md, property C12).                             *)
@@ -123,15 +137,19 @@ DirSeqs(e) == DirSeqsFrom(LegalDirs(e), 1, MaxDir)
 (*     end without rule names specified re-enables all rules");            *)
 (*  R4 a rule list restricts the directive to those rules;                 *)
 (*  R5 everything else is reported.                                        *)
+(*  R6 a directive written where its form covers nothing covers nothing:   *)
+(*     next-line as the last comment of a block, between `}` and `else`,   *)
+(*     at the end of the file; falco-ignore on a line of its own.          *)
 (* Where the documentation says nothing the requirement is *silent* and    *)
 (* only the mechanism prediction is compared (as drift):                   *)
 (*   - a start that is never closed (the statement speaks of pairs),       *)
 (*   - `end <rules>` while an unrestricted start is open,                  *)
-(*   - next-line with no statement after it in its block.                  *)
+(*   - start / end between `}` and `else` or at the end of the file (the   *)
+(*     documentation attaches directives to statements).                   *)
 (***************************************************************************)
 Match(d, r) == d.rules = {} \/ r \in d.rules
 NextCovers(e, d, n) == d.type = "next" /\ Kind(e, d.at) \in {"lead", "sublead"} /\ IsPrefix(Id(e, d.at), Id(e, n))
-ThisCovers(e, d, n) == d.type = "this" /\ Kind(e, n) = "stmt" /\ Id(e, d.at) = Id(e, n)
+ThisCovers(e, d, n) == d.type = "this" /\ Kind(e, d.at) = "trail" /\ Kind(e, n) = "stmt" /\ Id(e, d.at) = Id(e, n)
 
 RangeStep(s, d) ==
   CASE d.type = "start" -> [on      |-> IF d.rules = {} THEN Rules ELSE s.on \cup d.rules,
@@ -154,7 +172,7 @@ Required(e, ds) == (Sites(e) \X Rules) \ Covered(e, ds)
 Silent(e, ds) ==
   LET fin == RangeBefore(ds, Len(e) + 1) IN
   \/ fin.amb \/ fin.on # {}
-  \/ \E i \in DOMAIN ds : ds[i].type = "next" /\ Kind(e, ds[i].at) = "block_end"
+  \/ \E i \in DOMAIN ds : ds[i].type \in {"start", "end"} /\ Kind(e, ds[i].at) \in {"prelse", "eof"}
 
 (***************************************************************************)
 (* MECHANISM.                                                              *)
@@ -212,7 +230,7 @@ VARIABLES ev, dirs,     \* the program (constant along a behaviour)
 vars == <<ev, dirs, req, silent, pc, ig, rep>>
 
 \* comment gaps are not steps of the walk: pc always rests on the next node event
-IsGap(n) == Kind(ev, n) \in {"sublead", "lead", "block_end"}
+IsGap(n) == Kind(ev, n) \in {"sublead", "lead", "block_end", "prelse", "eof"}
 RECURSIVE SkipGaps(_)
 SkipGaps(n) == IF n <= Len(ev) /\ IsGap(n) THEN SkipGaps(n + 1) ELSE n
 
@@ -221,11 +239,12 @@ Ig0 == [nx |-> EmptySet, th |-> EmptySet, rg |-> EmptySet, stack |-> <<>>]
 SortByAt(D) == LET RECURSIVE F(_) F(X) == IF X = {} THEN <<>> ELSE
                      LET m == CHOOSE x \in X : \A y \in X : x.at <= y.at IN <<m>> \o F(X \ {m})
                IN F(D)
-OneThisPerGap(D) == \A x, y \in D : (x.type = "this" /\ y.type = "this" /\ x.at = y.at) => x = y
+OneThisPerGap(D) == \A x, y \in D : (Kind(ev, x.at) = "trail" /\ x.at = y.at) => x = y
 \* The program is chosen in the initial state, its directives by the first step (Place): TLC computes
 \* the successors of different programs on different workers.
 Init ==
-  /\ \E p \in (IF Sample = 0 THEN Programs ELSE RandomSubset(Sample, Programs)) : ev = FlatProg(p)
+  /\ \E p \in (IF Sample = 0 THEN Programs ELSE RandomSubset(Sample, Programs)) :
+       \E skip \in {0} \cup { i \in DOMAIN p : p[i] = <<>> } : ev = FlatProg(p, skip)
   /\ dirs = <<>> /\ req = {} /\ silent = FALSE
   /\ pc = 0
   /\ ig = Ig0
@@ -250,6 +269,10 @@ Report(g) == rep' = rep \cup { <<pc, r>> : r \in Survivors(g) }
 SubOpen == /\ Kind(ev, pc) = "sub_open"
            /\ ig' = SetupBlock(SetupStatement(ig, Leading("sublead", Id(ev, pc)), <<>>), <<>>)
            /\ UNCHANGED rep
+\* a subroutine excluded by the configuration: lintStatement still sets up and tears down around it
+SubSkip == /\ Kind(ev, pc) = "sub_skip"
+           /\ ig' = TeardownStatement(SetupStatement(ig, Leading("sublead", Id(ev, pc)), <<>>))
+           /\ UNCHANGED rep
 SubClose == /\ Kind(ev, pc) = "sub_close"
             /\ ig' = TeardownStatement(TeardownBlock(ig, Leading("block_end", Id(ev, pc))))
             /\ UNCHANGED rep
@@ -263,6 +286,12 @@ Trail == /\ Kind(ev, pc) = "trail"
 IfOpen == /\ Kind(ev, pc) = "if_open"
           /\ LET g == SetupStatement(ig, Leading("lead", Id(ev, pc)), <<>>) IN
              ig' = SetupBlock(g, <<>>) /\ Report(g)
+\* switch: SetupStatement around the whole statement; lintSwitchStatement sends every statement of a case
+\* through lintStatement (simple statements and ifs are walked as everywhere else)
+SwOpen == /\ Kind(ev, pc) = "sw_open"
+          /\ ig' = SetupStatement(ig, Leading("lead", Id(ev, pc)), <<>>) /\ UNCHANGED rep
+SwClose == /\ Kind(ev, pc) = "sw_close"
+           /\ ig' = TeardownStatement(ig) /\ UNCHANGED rep
 Else == /\ Kind(ev, pc) = "else"
         /\ ig' = SetupBlock(TeardownBlock(ig, Leading("block_end", Append(Id(ev, pc), 1))), <<>>)
         /\ UNCHANGED rep
@@ -277,7 +306,7 @@ IfClose == /\ Kind(ev, pc) = "if_close"
            /\ UNCHANGED rep
 
 Walk == /\ pc >= 1 /\ pc <= Len(ev)
-        /\ (SubOpen \/ SubClose \/ Stmt \/ Trail \/ IfOpen \/ Else \/ Elif \/ IfClose)
+        /\ (SubOpen \/ SubSkip \/ SubClose \/ SwOpen \/ SwClose \/ Stmt \/ Trail \/ IfOpen \/ Else \/ Elif \/ IfClose)
         /\ pc' = SkipGaps(pc + 1)
         /\ UNCHANGED <<ev, dirs, req, silent>>
 Next == Place \/ Walk
